@@ -109,6 +109,8 @@ func (m psMsg) tok() string {
 			p = fmt.Sprintf("valid %d %d %s", m.PConn, m.PA, b01(m.PCodeOk))
 		case "garbage":
 			p = fmt.Sprintf("garbage %d", m.N)
+		case "public":
+			p = "garbage 77" // for the model: just another proof that does not prove the code
 		}
 		return "m3 " + a + " " + p
 	case "m5":
@@ -176,11 +178,12 @@ func (e *psEnv) name(n int) string {
 	if s, ok := e.names[n]; ok {
 		return s
 	}
+	// the mapping index ↦ string must be injective (the model compares indices)
 	s := fmt.Sprintf("ctrl-%d-ü", n)
-	switch n % 5 {
-	case 0:
+	switch {
+	case n == 0:
 		s = e.f.name // the accessory's own device id (always a stored entity)
-	case 1:
+	case n%5 == 1:
 		s = fmt.Sprintf("%08X-0000-4000-8000-%012X", n, n)
 	}
 	e.names[n] = s
@@ -246,6 +249,14 @@ func (e *psEnv) concretise(conn int, m psMsg) []byte {
 			proof = e.client(m.PConn, m.PA, m.PCodeOk).M1
 		case "garbage":
 			proof = randBytes(e.r, 64)
+		case "public":
+			// the proof anybody can compute from public values: M1 over this A with an EMPTY session key — what a server
+			// whose key computation failed (and was not aborted) would compare against
+			pc := e.conns[conn]
+			hn := new(bigInt).SetBytes(refH(refSrpN.Bytes()))
+			hg := new(bigInt).SetBytes(refH(refSrpG.Bytes()))
+			hng := new(bigInt).Xor(hn, hg)
+			proof = refH(hng.Bytes(), refH([]byte("Pair-Setup")), pc.salt, new(bigInt).SetBytes(A).Bytes(), pc.B, nil)
 		}
 		items := []tlvOp{{tState, b1(3)}}
 		if A != nil {
@@ -424,17 +435,26 @@ func genPsMsg(r *rand.Rand, conn, nconn int, a *int, fresh *int) psMsg {
 			m.PA = *a + 1 // proof for a different client key
 		default:
 			m.AGood, m.AN = false, r.Intn(4) // A = 0 mod N / missing
-			if r.Intn(2) == 0 {
+			switch r.Intn(3) {
+			case 0:
 				m.ProofKind = "empty"
+			case 1:
+				m.ProofKind = "public"
 			}
 		}
 		return m
 	case 5, 6:
 		*fresh++
+		if r.Intn(8) == 0 {
+			return genuineM5(conn, *a, 0, *fresh) // pairing under the accessory's own name
+		}
 		return genuineM5(conn, *a, *fresh, *fresh)
 	case 7, 8:
 		*fresh++
 		m := genuineM5(conn, *a, *fresh, *fresh)
+		if r.Intn(8) == 0 {
+			m = genuineM5(conn, *a, 0, *fresh)
+		}
 		switch r.Intn(14) {
 		case 0:
 			m.KKind = "zero"
@@ -549,7 +569,12 @@ func psCorpus() [][]psStep {
 	badA2 := psMsg{Kind: "m3", AGood: false, AN: 2, ProofKind: "garbage"}
 	wrong := validM3(0, 0)
 	wrong.PCodeOk = false
+	pubA := psMsg{Kind: "m3", AGood: false, AN: 2, ProofKind: "public"}
+	pubA0 := psMsg{Kind: "m3", AGood: false, AN: 1, ProofKind: "public"}
 	return [][]psStep{
+		{{0, psMsg{Kind: "m1"}}, {0, pubA}, {0, nilM5}},
+		{{0, psMsg{Kind: "m1"}}, {0, pubA0}, {0, nilM5}},
+		{{0, psMsg{Kind: "m1"}}, {0, psMsg{Kind: "m3", AGood: false, AN: 0, ProofKind: "empty"}}, {0, zeroM5}},
 		{{0, psMsg{Kind: "m1"}}, {0, badA}, {0, zeroM5}},
 		{{0, psMsg{Kind: "m1"}}, {0, badA2}, {0, nilM5}},
 		{{0, psMsg{Kind: "m1"}}, {0, badA}, {0, psMsg{Kind: "badstate", N: 9}}, {0, zeroM5}},
